@@ -94,19 +94,43 @@ def check_cuts(rep, tier, rng, drv, run, tmp):
             vals.append(b"~" + st_ + _st.pack("<I", len(st_)) + b"PAR1")
         for w in range(0xFFFFFFF1, 0x100000000):
             vals.append(_st.pack("<I", w) + b"PAR1")
+        # declared footer lengths at the boundary of the PREFIX size (size-16 .. size+8): the length word is
+        # patched in a second pass, once the position of each value in the written file is known
+        nb = 25
+        vals += [bytes([0xF5, i]) + _st.pack("<I", 0) + b"PAR1" for i in range(nb)]
         rng.shuffle(vals)
         for codec in ([0] if tier == "quick" else [0, 0, 1]):
             bp = tmp / f"blob{len(files)}.parquet"
             o, _ = run_sharded(drv, [f"genblob {codec} {bp} " + " ".join(v.hex() for v in vals)])
+            if o and o[0].startswith("OK") and codec == 0:
+                first = bp.read_bytes()
+                v2 = list(vals)
+                for k, v in enumerate(v2):
+                    if len(v) == 10 and v[0] == 0xF5 and v[6:] == b"PAR1":
+                        at = first.find(v)
+                        if at >= 0:
+                            size = at + 10                      # the prefix that ends right after this value
+                            v2[k] = v[:2] + _st.pack("<I", max(0, size - 16 + v[1])) + b"PAR1"
+                o, _ = run_sharded(drv, [f"genblob {codec} {bp} " + " ".join(v.hex() for v in v2)])
             if o and o[0].startswith("OK"):
                 files.append((f"blob:{codec}", bp, bp.read_bytes()))
             else:
                 rep.tie_broken(f"genblob failed: {o}", "genblob")
             rng.shuffle(vals)
+        # synthetic images (model tie of the open decision, all three paths, exact-size buffers): valid magics and
+        # every declared footer length around the image size
+        for size in (12, 13, 16, 24, 40):
+            for ln in sorted(set([max(0, size - 16 + d) for d in range(25)] + [0xFFFFFFFF - d for d in range(16)])):
+                ip = tmp / f"img{len(files)}.bin"
+                ip.write_bytes(b"PAR1" + bytes(size - 12) + _st.pack("<I", ln) + b"PAR1")
+                files.append((f"image:{size}:{ln}", ip, ip.read_bytes()))
     chunk = 200 if tier == "quick" else 400
     cases = []
     for fi, (s, p, data) in enumerate(files):
         n = len(data)
+        if s.startswith("image:"):
+            cases.append((fi, n, n + 1))
+            continue
         for a in range(0, n + 1, chunk):
             cases.append((fi, a, min(n + 1, a + chunk)))
     lines_c = [f"cuts {files[fi][1]} {tmp}/cut{k} {a} {b}" for k, (fi, a, b) in enumerate(cases)]
@@ -171,7 +195,11 @@ def check_cuts(rep, tier, rng, drv, run, tmp):
                     rep.violation(f"a proper prefix ({cut} of {n} bytes, spec {spec}) was opened by the {modes[mi]} path "
                                   f"although it is not a complete Parquet file ({valid[1]})",
                                   {"op": "cut", "spec": spec, "cut": cut, "mode": mi, "file_hex": prefix.hex()})
-            if code != 0 and cut == n:
+            if spec.startswith("image:"):
+                if code == 0 or (mi > 0 and code != codes[0]):
+                    rep.violation(f"an image with valid magics but no usable footer ({spec}) is not rejected alike: "
+                                  f"fread/mmap/buffer = {codes}", {"op": "cut", "spec": spec, "cut": cut, "mode": mi, "file_hex": prefix.hex()})
+            elif code != 0 and cut == n:
                 rep.tie_broken(f"the complete file of spec {spec} is rejected by the {modes[mi]} path with {code}", spec)
             # --- the model's prediction
             kind = st.split("/")[0]
